@@ -231,6 +231,17 @@ pub fn run(tier: &str, seed: u64) -> i32 {
     for st in crate::checks::families::generic_and_family_stats("C01", thorough, seed, true, &|c, ctx| check_case(c, ctx, None)) {
         report.add(st);
     }
+    let g = crate::graph::quick_graph(if thorough { 3 } else { 2 });
+    let gb = Budget {
+        max_depth: g.max_edges as u32,
+        wall: Duration::from_secs(if thorough { 900 } else { 40 }),
+        max_states: 5_000_000,
+    };
+    report.add(explore(&g, &gb, seed, |s, ctx| {
+        let mut spec = SettingsSpec::faithful();
+        spec.root = "root".into();
+        check_case(&Case::new(RegSrc::Prog(s.program()), spec, "D-graph"), ctx, None);
+    }));
     // D-chain: the Polkadot registry (de-duplicated, as every real user does) and every single-id closure
     let mut chain: Vec<Case> = vec![];
     for (sname, spec) in &settings {
